@@ -46,3 +46,41 @@ func zzC13_keepalive_ping() {
 		}
 	}
 }
+
+// C18: a ping that could not even be sent (socket error, token collision) is an unanswered ping like any other - a
+// silent connection is closed after more than the configured number of silent rounds, however many of the pings
+// failed to go out
+func zzC18_keepalive_send_fails() {
+	maxRetries := uint32(symChoose("maxRetries", 4))
+	cc := &zzConn{}
+	closes := 0
+	sent := 0
+	fail := [6]bool{}
+	for i := range fail {
+		fail[i] = symChoose("send-fails", 2) == 1
+	}
+	ka := NewKeepAlive(maxRetries, func(c *zzConn) { closes++ }, func(c *zzConn, receivePong func()) (func(), error) {
+		i := sent
+		sent++
+		if i < len(fail) && fail[i] {
+			return nil, errZZSend
+		}
+		return func() {}, nil
+	})
+	t := int64(1 << 41)
+	symSetNow(time.Unix(0, t))
+	m := New(time.Second, ka.OnInactive)
+	for round := uint32(1); round <= maxRetries+1; round++ {
+		symAssert(closes == 0, "the connection is not closed while at most maxRetries pings are unanswered")
+		t += int64(2 * time.Second)
+		m.CheckInactivity(time.Unix(0, t), cc)
+	}
+	symCover("silent-rounds")
+	symAssert(closes == 1, "a silent connection is closed once more than maxRetries consecutive pings went unanswered, sent or not")
+}
+
+var errZZSend = zzErr("cannot send ping")
+
+type zzErr string
+
+func (e zzErr) Error() string { return string(e) }
